@@ -1,4 +1,5 @@
 import Flowjaxv.Prelude.Jnp
+import Flowjaxv.Prelude.Stats
 /-!
 # Reverse-mode differentiation of the generated kernels over a number domain with IEEE special values
 
@@ -31,8 +32,24 @@ class Num (N : Type) extends Add N, Sub N, Mul N, Div N, Neg N where
   expm1 : N → N
   /-- logistic sigmoid, the derivative of softplus -/
   sigmoid : N → N
+  /-- `lax.log1p` -/
+  log1p : N → N
+  /-- `lax.lgamma` (log |Γ|) and its derivative `lax.digamma` -/
+  lgamma : N → N
+  digamma : N → N
+  /-- `+∞` -/
+  inf : N
+  /-- `jnp.isnan` -/
+  isNaN : N → Bool
 
 inductive Prim | abs | sign | exp | log | tanh | artanh | sqrt | softplus | expm1
+  /-- `lax.log1p` (jvp `g / (1 + x)`), `lax.square` (jvp `g * (2 * x)`), `lax.lgamma` (jvp `g * digamma x`),
+  `jax.nn.relu` (a `custom_jvp`: value `max(x, 0)`, jvp `select(x > 0, g, 0)` — NO tie splitting at 0) -/
+  | log1p | square | lgamma | relu
+deriving Repr, DecidableEq
+
+/-- binary primitives with their own differentiation rule: `jnp.logaddexp` is a `custom_jvp` -/
+inductive Prim2 | logaddexp
 deriving Repr, DecidableEq
 
 structure Env (N : Type) where
@@ -55,22 +72,46 @@ inductive Expr (N : Type) where
   | div (a b : Expr N)
   | neg (a : Expr N)
   | prim (p : Prim) (a : Expr N)
+  | bin (p : Prim2) (a b : Expr N)
   /-- `jnp.maximum` / `jnp.minimum`: at a tie JAX splits the cotangent evenly (`_balanced_eq`) -/
   | max (a b : Expr N)
   | min (a b : Expr N)
   /-- `jnp.where(c, a, b)`; the mask is computed from values and is not differentiated -/
   | sel (c : Env N → Bool) (a b : Expr N)
   | letE (i : Nat) (v body : Expr N)
+  /-- `lax.stop_gradient`: the value of `a`, no cotangent flows into it -/
+  | stopGrad (a : Expr N)
 
 variable {N : Type} [Num N]
 
 def applyPrim : Prim → N → N
   | .abs => Num.abs | .sign => Num.sign | .exp => Num.exp | .log => Num.log | .tanh => Num.tanh
   | .artanh => Num.artanh | .sqrt => Num.sqrt | .softplus => Num.softplus | .expm1 => Num.expm1
+  | .log1p => Num.log1p | .square => fun x => x * x | .lgamma => Num.lgamma
+  | .relu => fun x => if Num.lt x (Num.ofInt 0) then Num.ofInt 0 else x
+
+/-- `jax._src.lax.other.logaddexp` (real floating branch):
+`select(isnan(x1 - x2), x1 + x2, max(x1, x2) + log1p(exp(-|x1 - x2|)))` -/
+def logaddexp (x y : N) : N :=
+  let amax := if Num.lt x y then y else x
+  let delta := x - y
+  if Num.isNaN delta then x + y else amax + Num.log1p (Num.exp (-(Num.abs delta)))
+
+/-- `_replace_inf x = select(isposinf x, 0, x)` of the `logaddexp` jvp rule -/
+def replaceInf (x : N) : N := if Num.beq x Num.inf then Num.ofInt 0 else x
+
+def applyPrim2 : Prim2 → N → N → N
+  | .logaddexp => logaddexp
+
+/-- partials of a binary primitive (`_logaddexp_jvp`: `t1 * exp(x1 - out) + t2 * exp(x2 - out)`) -/
+def dPrim2 : Prim2 → N → N → N × N
+  | .logaddexp, x, y =>
+      let out := logaddexp x y
+      (Num.exp (replaceInf x - replaceInf out), Num.exp (replaceInf y - replaceInf out))
 
 /-- partial derivative of a primitive at `x` (JAX's jvp rules) -/
 def dPrim : Prim → N → N
-  | .abs, x => Num.sign x
+  | .abs, x => if Num.le (Num.ofInt 0) x then Num.ofInt 1 else Num.ofInt (-1)  -- `_abs_jvp_rule`: `select(x >= 0, g, -g)` (so +1 at 0)
   | .sign, _ => Num.ofInt 0
   | .exp, x => Num.exp x
   | .log, x => Num.ofInt 1 / x
@@ -79,6 +120,10 @@ def dPrim : Prim → N → N
   | .sqrt, x => Num.ofInt 1 / (Num.ofInt 2 * Num.sqrt x)
   | .softplus, x => Num.sigmoid x
   | .expm1, x => Num.exp x
+  | .log1p, x => Num.ofInt 1 / (Num.ofInt 1 + x)
+  | .square, x => Num.ofInt 2 * x
+  | .lgamma, x => Num.digamma x
+  | .relu, x => if Num.lt (Num.ofInt 0) x then Num.ofInt 1 else Num.ofInt 0
 
 /-- JAX `x[i]`: negative index wraps once, then clamps; returns the resolved position -/
 def resolveIdx (len : Nat) (i : Int) : Nat :=
@@ -97,10 +142,12 @@ def Expr.eval (env : Env N) : Expr N → N
   | .div a b => a.eval env / b.eval env
   | .neg a => -(a.eval env)
   | .prim p a => applyPrim p (a.eval env)
+  | .bin p a b => applyPrim2 p (a.eval env) (b.eval env)
   | .max a b => if Num.lt (a.eval env) (b.eval env) then b.eval env else a.eval env
   | .min a b => if Num.lt (b.eval env) (a.eval env) then b.eval env else a.eval env
   | .sel c a b => if c env then a.eval env else b.eval env
   | .letE i v body => body.eval (env.set i (v.eval env))
+  | .stopGrad a => a.eval env
 
 /-- where a cotangent lands: a scalar variable or one element of a vector parameter -/
 inductive Key | s (i : Nat) | v (vec pos : Nat)
@@ -123,6 +170,9 @@ def Expr.vjp (env : Env N) : Expr N → N → Grad N
       a.vjp env (ct / b.eval env) ++ b.vjp env (-(ct * a.eval env) / (b.eval env * b.eval env))
   | .neg a, ct => a.vjp env (-ct)
   | .prim p a, ct => a.vjp env (ct * dPrim p (a.eval env))
+  | .bin p a b, ct =>
+      let d := dPrim2 p (a.eval env) (b.eval env)
+      a.vjp env (ct * d.1) ++ b.vjp env (ct * d.2)
   | .max a b, ct =>
       let x := a.eval env
       let y := b.eval env
@@ -142,6 +192,7 @@ def Expr.vjp (env : Env N) : Expr N → N → Grad N
       let gb := body.vjp env' ct
       -- the cotangent accumulated on the let-bound variable flows into its definition
       (gb.filter (fun kv => kv.1 ≠ Key.s i)) ++ v.vjp env (Grad.total gb (Key.s i))
+  | .stopGrad _, _ => []
 
 end Ad
 
@@ -150,7 +201,31 @@ namespace Ad
 def Float.sigmoid (x : Float) : Float := 1 / (1 + Float.exp (-x))
 def Float.signum (x : Float) : Float := if x < 0 then -1 else if x > 0 then 1 else if x == 0 then 0 else x
 
+/-- `log(1+x)` without cancellation near 0 (Lean's `Float` has no `log1p`) -/
+def Float.log1pStable (x : Float) : Float :=
+  let u := 1 + x
+  if u == 1 then x else if u - 1 == x then Float.log u else Float.log u * (x / (u - 1))
+
+/-- digamma: recurrence up to `x ≥ 10`, then the asymptotic series (|rel. error| ≲ 1e-14 for x > 0);
+reflection for `x < 0` is not needed by any kernel (only positive `df/2`, `(df+1)/2` occur) -/
+def Float.digammaPos (x : Float) : Float := Id.run do
+  let mut acc : Float := 0
+  let mut y := x
+  for _ in [0:10] do
+    if y < 10 then
+      acc := acc - 1 / y
+      y := y + 1
+  let r := 1 / y
+  let r2 := r * r
+  let series := r2 * (1/12 - r2 * (1/120 - r2 * (1/252 - r2 * (1/240 - r2 * (1/132 - r2 * (691/32760 - r2 * (1/12)))))))
+  return acc + Float.log y - r / 2 - series
+
 instance : Num Float where
+  log1p := Float.log1pStable
+  lgamma := Float.lgammaLanczos
+  digamma := Float.digammaPos
+  inf := 1 / 0
+  isNaN x := x != x
   ofInt i := Float.ofInt i
   ofSci m s e := Float.ofScientific m s e
   lt a b := decide (a < b)
@@ -163,7 +238,8 @@ instance : Num Float where
   tanh := Float.tanh
   artanh := Float.atanh
   sqrt := Float.sqrt
-  softplus := Float.softplusStable
+  -- `jax.nn.softplus = logaddexp(x, 0)`: `max(x, 0) + log1p(exp(-|x|))` (with `log1p`, accurate for very negative `x`)
+  softplus := fun x => (if x > 0 then x else 0) + Float.log1pStable (Float.exp (-(Float.abs x)))
   expm1 := Float.expm1Stable
   sigmoid := Float.sigmoid
 end Ad
